@@ -181,8 +181,17 @@ func init() {
 	}
 }
 
+var oddBytes = []string{"\x00", "\x01", " ", "\xff", "\t", "\n", ":", "/", "A", "x", "\x7f", "\u00a0"}
+
 func nearMiss(r *rng, s string) string {
-	switch r.intn(9) {
+	switch r.intn(12) {
+	case 9: // an odd byte in front
+		return r.pick(oddBytes) + s
+	case 10: // an odd byte somewhere inside or at the end
+		i := r.intn(len(s) + 1)
+		return s[:i] + r.pick(oddBytes) + s[i:]
+	case 11: // several odd bytes in front (length-insensitive matchers)
+		return strings.Repeat(r.pick(oddBytes), 1+r.intn(3)) + s
 	case 0:
 		return strings.ToLower(s)
 	case 1:
